@@ -262,11 +262,18 @@ class E2Session(SessionBase):
             if c14 and changed:
                 raise Violation('C14', 'preblocked-request-changed-state', r['id'])
             self.rejected += 1
+            if not c14:
+                self._resync(after)
             return 'preblocked'
         # --- the call raised while processing this request
         if raised is not None:
             self.st.faults['raising_request:' + type(raised).__name__] += 1
             self.rejected += 1
+            if not c14:
+                # not judged under C15 (atomicity of a raising call is C14's subject); adopt what happened
+                if changed:
+                    self.st.notes['raising_call_partially_committed_on_mixed_extent_maps'] += 1
+                self._resync(after)
             if c14 and changed:
                 sig = f'raising-request-changed-state:{shape}'
                 if not self.known.is_open('C14', sig):
@@ -284,6 +291,8 @@ class E2Session(SessionBase):
         if hasattr(rq, 'blocking_reason'):
             self.st.faults['blocked_request:' + rq.blocking_reason] += 1
             self.rejected += 1
+            if not c14:
+                self._resync(after)
             if c14 and (rq.N is not None or rq.M is not None):
                 raise Violation('C14', 'blocked-request-keeps-labels', f'{r["id"]}: N={rq.N} M={rq.M}')
             if c14 and rq.blocking_reason not in ('NO_SPECTRUM', 'NOT_ENOUGH_RESERVED_SPECTRUM'):
@@ -304,7 +313,14 @@ class E2Session(SessionBase):
         self.accepted += 1
         ns, ms = rq.N, rq.M
         if not c14:
+            # C15: "a later assign(N, M) marks exactly [N-M, N+M-1]" on the OMS of the path and nothing elsewhere
             if isinstance(ns, list) and isinstance(ms, list) and all(isinstance(x, int) for x in ns + ms):
+                want = {x for a, b in ranges_of(ns, ms) for x in range(a, b + 1)}
+                for o in range(nomax):
+                    got = self._occupied_real(after, o) - self._occupied_real(before, o)
+                    if got != (want if o in path_oms else set()):
+                        raise Violation('C15', 'assignment-marks-wrong-slots',
+                                        f'{r["id"]} N={ns} M={ms}: oms {o} newly occupied {sorted(got)[:8]}')
                 self._occupy(path_oms, ns, ms, r)
             return 'ok'
         if not isinstance(ns, list) or not isinstance(ms, list) or not ns or len(ns) != len(ms) or \
